@@ -562,6 +562,14 @@ example : verifyVP exCfg exP exE2 true false (some 2000) { exVP with vcs := [exF
 example : isTrusted (removeTrust [("T", ["did:x:i", "did:x:o", "did:x:i"])] "T" "did:x:i") "T" "did:x:i" = false ∧
     isTrusted (removeTrust [("T", ["did:x:i", "did:x:o", "did:x:i"])] "T" "did:x:i") "T" "did:x:o" = true ∧
     removeTrust [("T", ["did:x:i", "did:x:o", "did:x:i"])] "T" "did:x:i" = [("T", ["did:x:o", ""])] := by decide
+-- the key id must belong to exactly the claimed issuer: a look-alike DID that is a textual prefix of it (and resolves, with
+-- its own assertion key that really signed) is rejected
+example : verify exCfg exP { exE2 with
+      resolve := fun _ d => if d == "did:x:i" || d == "did:x:i2" then some { assertion := [(d ++ "#k", "K1")] } else none }
+    true true (some 2000)
+    { exU with issuer := "did:x:i2", id := some "did:x:i2#1",
+               proof := .one { exProof with jws := exSign "K1" (tbs exP exProof (exP.canon { exU with issuer := "did:x:i2", id := some "did:x:i2#1" })) }, nProofs := 1 }
+    = .err "vm-not-of-issuer" := by decide
 -- tamper_evident: its hypotheses are satisfiable together.  Crypto in which exactly ONE (key, message, signature) triple
 -- verifies (so unforgeability holds with `Signed k m := m = exM0`); c' = the signed credential with another issuance date.
 example : ∃ (Signed : Key → Bytes → Prop) (c' : Cred),
@@ -835,6 +843,9 @@ theorem fact_wiring :
     Nuts.Facts.C01.apiVerifyVPStmts = apiVerifyVPStmtsSrc := by
   refine ⟨by rfl, by rfl, by rfl, by rfl, by rfl, by rfl, by rfl, by rfl, by rfl, by rfl⟩
 
+/-- a refreshed status list replaces EVERY column of the stored copy (UpdateAll), so the bitstring that later checks read is the
+    downloaded one -/
+theorem fact_status_list_refresh_replaces_all_columns : Nuts.Facts.C01.statusListUpdateOnConflict = ["UpdateAll:true"] := by decide
 theorem fact_max_skew : Nuts.Facts.C01.maxSkewMs = 5000 := by decide
 theorem fact_supported_algs : Nuts.Facts.C01.supportedAlgs = ["ES256", "EdDSA", "ES384", "ES512", "PS256", "PS384", "PS512"] := by decide
 theorem fact_signing_key_relation : Nuts.Facts.C01.signingKeyRelation = "AssertionMethod" := by decide
